@@ -192,7 +192,7 @@ PROPS["C05"] = dict(
     level="proof",
     text="termination and output-size bounds where a contract reaches the loop: stdlib format_number (the anchored hang) -- the real body extracted and verified by Verus: with a scale n the result has exactly max(n, 0) fraction digits, so the padding loop runs at most n times for every i64 scale, and the Decimal conversion is never unwrapped when it has no answer; "
          "format_int's digit loop (format_radix) terminates for every i64 and radix (proved `decreases`). Every other stdlib function is NOT decided",
-    verus=["v_format_number", "v_format_radix"],
+    verus=["v_format_number", "v_format_radix", "v_chars_iter"],
     kani=[],
     bounded_native=[dict(unit="format_number", bound="14 scripted calls (finite, infinite and out-of-range values x absent, negative, zero, positive and i64::MIN scales), each in a child process under a 10 s watchdog and a 2 GB address-space limit",
                          functions=["stdlib format_number through compiled VRL programs"],
@@ -259,7 +259,7 @@ PROPS["C15"] = dict(
 PROPS["C04"] = dict(
     level="proof",
     text="panic-freedom as a by-product of every unit: each Verus unit discharges the body-safety obligations of its function (arithmetic overflow, index bounds, unwrap/expect/unreachable!, callee preconditions, loop termination) and each Kani unit discharges every reachable CBMC built-in check (panics, overflow checks, out-of-bounds, invalid memory) of the code it exercises, for all inputs of its domain",
-    verus=["v_format_radix", "v_format_number", "v_find", "v_crud_vec", "v_closure_runner", "v_op_resolve", "v_nodes", "v_value_error_from", "v_target_ops", "v_read_only"],
+    verus=["v_format_radix", "v_format_number", "v_find", "v_chars_iter", "v_crud_vec", "v_closure_runner", "v_op_resolve", "v_nodes", "v_value_error_from", "v_target_ops", "v_read_only"],
     kani=["c10_int_cmp", "c10_float_cmp", "c10_mixed_eq", "c11_int_arith", "c11_int_rem_class", "c11_int_div_class", "c11_float_add", "c11_float_sub",
           "c11_float_div_class", "c11_float_rem_class", "c11_mixed_add_sub", "c11_mixed_div_class", "k_abs_int", "k_abs_float", "k_to_int_scalar", "k_to_float_scalar",
           "k_try_and_table", "k_try_boolean", "k_ipv4_mask", "k_ipv6_mask"],
